@@ -327,8 +327,14 @@ def diff_obs(plain, inst):
     return None
 
 
+CRASH_SIGNALS = ("SIGSEGV", "SIGABRT", "SIGBUS", "SIGFPE", "SIGILL")   # raised by the interpreter itself
+
+
 def isolated(fn, *args, timeout=900):
-    """Run fn(*args) in a forked child; returns its JSON-able result or {"crash": signal}."""
+    """Run fn(*args) in a forked child.  Returns its JSON-able result, or {"crash": signal} when the
+    interpreter itself died (SIGSEGV/SIGABRT/...), or {"inconclusive": why} when the child was stopped
+    from outside (the watchdog's SIGALRM, SIGKILL/SIGTERM from the system) or vanished without a result:
+    that says nothing about the property."""
     r, w = os.pipe()
     pid = os.fork()
     if pid == 0:
@@ -349,11 +355,34 @@ def isolated(fn, *args, timeout=900):
         data = f.read()
     _, status = os.waitpid(pid, 0)
     if os.WIFSIGNALED(status):
-        return {"crash": signal.Signals(os.WTERMSIG(status)).name}
+        name = signal.Signals(os.WTERMSIG(status)).name
+        return {"crash": name} if name in CRASH_SIGNALS else {"inconclusive": name}
     try:
         return json.loads(data)
     except Exception:  # noqa: BLE001
-        return {"crash": f"exit{os.WEXITSTATUS(status)}"}
+        return {"inconclusive": f"exit{os.WEXITSTATUS(status)}"}
+
+
+def _plain_only(src, path, spec):
+    code = compile(src, path, "exec")
+    return {"exc": call_once(code, path, spec)["exc"]}
+
+
+def usable_specs(src, path, specs, limit=4):
+    """Pre-run the PLAIN program on every input in its own child under a short watchdog; keep only the
+    inputs on which it terminates quickly and does not itself kill the interpreter.  Returns
+    (kept specs, {reason: count} of dropped ones)."""
+    with open(path, "w") as f:
+        f.write(src)
+    kept, dropped = [], {}
+    for s in specs:
+        r = isolated(_plain_only, src, path, s, timeout=limit)
+        if "exc" in r:
+            kept.append(s)
+        else:
+            why = "plain-slow" if r.get("inconclusive") == "SIGALRM" else "plain-" + str(r.get("crash") or r.get("inconclusive") or "error")
+            dropped[why] = dropped.get(why, 0) + 1
+    return kept, dropped
 
 
 def differential(src, path, specs, subsets):
@@ -382,9 +411,14 @@ def differential(src, path, specs, subsets):
 
 def differential_isolated(src, path, specs, subsets):
     """Like `differential`, but every metric subset runs in its own forked child so that an
-    interpreter crash caused by the instrumented code is observed instead of killing the check."""
-    fails, plain_exc = [], None
+    interpreter crash caused by the instrumented code is observed instead of killing the check.
+    Inputs on which the plain program is slow or crashes are dropped first; a child stopped from outside
+    is inconclusive."""
+    specs, dropped = usable_specs(src, path, specs)
+    fails, plain_exc, inconclusive = [], [], dict(dropped)
     for ms in subsets:
+        if not specs:
+            break
         r = isolated(differential, src, path, specs, [ms])
         if "crash" in r:
             # find the input that crashes
@@ -394,13 +428,18 @@ def differential_isolated(src, path, specs, subsets):
                 if "crash" in r1:
                     hit = k
                     break
-            fails.append([list(ms), hit if hit is not None else -1, "crash", r["crash"], "interpreter died"])
+            if hit is None:
+                inconclusive["crash-not-reproduced"] = inconclusive.get("crash-not-reproduced", 0) + 1
+            else:
+                fails.append([list(ms), hit, "crash", r["crash"], "interpreter died (the plain program runs normally on this input)"])
+        elif "inconclusive" in r:
+            inconclusive[r["inconclusive"]] = inconclusive.get(r["inconclusive"], 0) + 1
         elif "harness_error" in r:
             fails.append([list(ms), -1, "harness", r["harness_error"], r.get("tb", "")])
         else:
             fails += r["fails"]
             plain_exc = r["plain_exc"]
-    return {"fails": fails, "plain_exc": plain_exc}
+    return {"fails": fails, "plain_exc": plain_exc, "inconclusive": inconclusive, "specs": specs}
 
 
 # ---------------------------------------------------------------------------------------------
